@@ -23,7 +23,8 @@ type C10Case struct {
 
 func drawC10(t *rapid.T) *C10Case {
 	c := &C10Case{}
-	scale := rapid.SampledFrom([]int64{40, 400, 20000, 5000000}).Draw(t, "scale")
+	// the statement sets no magnitude limit: beyond 2^31.5 the squared length of a segment leaves int64
+	scale := rapid.SampledFrom([]int64{40, 400, 20000, 5000000, 1 << 32, 1 << 38}).Draw(t, "scale")
 	n := rapid.SampledFrom([]int{1, 2, 3, 4, 5, 6, 8}).Draw(t, "n")
 	cur := P{X: rapid.Int64Range(-scale, scale).Draw(t, "x0"), Y: rapid.Int64Range(-scale, scale).Draw(t, "y0")}
 	c.Line = Path{cur}
@@ -60,7 +61,8 @@ func drawC10(t *rapid.T) *C10Case {
 	c.End = rapid.SampledFrom([]c2.EndType{c2.Butt, c2.SquareET, c2.RoundET, c2.Joined}).Draw(t, "end")
 	c.Join = rapid.SampledFrom([]c2.JoinType{c2.Miter, c2.Square, c2.Bevel, c2.Round}).Draw(t, "join")
 	c.MiterLimit = rapid.SampledFrom([]float64{2, 1, 3, 10}).Draw(t, "miterLimit")
-	c.Delta = math.Exp(rapid.Float64Range(math.Log(0.5), math.Log(float64(scale))).Draw(t, "logDelta"))
+	// (delta capped at 5e6: a round join of radius 2^38 has ~10^6 arc steps - a resource-shaped limit)
+	c.Delta = math.Exp(rapid.Float64Range(math.Log(0.5), math.Log(math.Min(float64(scale), 5e6))).Draw(t, "logDelta"))
 	if rapid.IntRange(0, 2).Draw(t, "arcKind") == 0 && c.Delta >= 2 {
 		c.ArcTol = rapid.Float64Range(0.25, c.Delta/4+0.25).Draw(t, "arcTol")
 	}
